@@ -3,6 +3,9 @@
 // carriers, with *assumed* contracts (DESIGN.md §2.4). No function of /repo is re-implemented here:
 // every arroy function that a property depends on is extracted from /repo at run time.
 // ---------------------------------------------------------------------------------------------
+// the checks are for the 64-bit targets the crate is built for here (usize == u64)
+global size_of usize == 8;
+
 pub type ItemId = u32;
 pub assume_specification<T>[core::mem::drop::<T>](x: T);
 pub assume_specification<T, U, F: FnOnce(T) -> U>[Option::<T>::map_or](o: Option<T>, default: U, f: F) -> (r: U)
